@@ -106,16 +106,16 @@ TNextTrace == /\ tid <= Len(Tr) /\ l > Len(Tr[tid])
 
 FailedClause ==
     IF Rec.ev = "raise" THEN Rec.exc
-    ELSE IF Rec.ev = "aug" THEN (IF pc # "aug" THEN "spec: aug outside phase"
-                                 ELSE IF ~IsAugPath(E, mu, Vs, Rec.path) THEN "spec: not an augmenting path of the current matching"
-                                 ELSE "spec: path length differs from BFS layer distance")
-    ELSE IF Rec.ev = "bfs" THEN "spec: BFS result differs from shortest augmenting path length"
+    ELSE IF Rec.ev = "aug" THEN (IF Strict /\ (pc # "aug") THEN "spec: aug outside phase"
+                                 ELSE IF Strict /\ (~IsAugPath(E, mu, Vs, Rec.path)) THEN "spec: not an augmenting path of the current matching"
+                                 ELSE IF Strict THEN "spec: path length differs from BFS layer distance" ELSE "a property clause of this event failed (no specific diagnostic)")
+    ELSE IF Strict /\ (Rec.ev = "bfs") THEN "spec: BFS result differs from shortest augmenting path length"
     ELSE IF Rec.ev = "matching" THEN
         (IF ~(\A i \in 1..Len(Rec.pairs) : Rec.pairs[i][1] \in Us /\ Rec.pairs[i][2] \in Vs) THEN "matching vertex out of range"
          ELSE IF ~(\A i, j \in 1..Len(Rec.pairs) : i # j => Rec.pairs[i][1] # Rec.pairs[j][1]) THEN "U vertex matched twice"
          ELSE IF ~IsMatching(E, LoggedMatching, Vs) THEN "not a matching of existing edges"
          ELSE IF AugPathExists(E, LoggedMatching, Vs) THEN "matching not maximum (augmenting path exists)"
-         ELSE "spec: matching differs from model state")
+         ELSE IF Strict THEN "spec: matching differs from model state" ELSE "a property clause of this event failed (no specific diagnostic)")
     ELSE IF Rec.ev = "cover" THEN
         (LET cu == SeqToSet(Rec.uc)  cv == SeqToSet(Rec.vc)
          IN IF ~(cu \subseteq Us /\ cv \subseteq Vs) THEN "cover vertex out of range"
